@@ -229,6 +229,24 @@ CHECKS = {
         note="Trusted as C02, plus gfortran 12. Not yet covered: language c subject library, struct rows in Fortran, "
              "std::vector and char** rows.",
     ),
+    "C10": dict(
+        level="model_checking",
+        design="DESIGN.md section 4 / C10",
+        technique="TLA+ spec StrXfer (byte-level machines of ShroudLenTrim / StrAlloc / StrCopy / StrBlankFill with "
+                  "read and write sets, documented trimming / padding rules) model-checked with TLC; the real helper "
+                  "texts from whelpers.CHelpers (C and C++ variants) compiled under AddressSanitizer and run on the "
+                  "complete small case set, every record validated against Trace_StrXfer by TLC; string rows of C01 "
+                  "exercise which helper and which length each argument kind uses",
+        text="TLC exhausts source and destination lengths 0..4 x contents over {a, blank} (plus NUL-terminated and "
+             "NULL sources): every helper leaves exactly the trimmed / NUL-terminated / truncated / blank-padded text "
+             "the rule states and reads and writes only inside the lengths it is given. Conformance: the helper texts "
+             "of the tree under test are compiled as C and as C++ with -fsanitize=address into a driver that calls "
+             "them on exact-size heap buffers for the same complete case set (lengths 0..4, thorough 0..5) and for "
+             "CHARACTER(len) arrays; TLC re-runs the byte machine on each recorded argument tuple and compares the "
+             "bytes left behind and the return value; a sanitizer report or a leak is a violation.",
+        note="Trusted: TLC, GCC 12 ASan/LSan, the driver. The Fortran side of the pipelines (trim(x)//C_NULL_CHAR, "
+             "len vs len_trim, allocatable results) is covered end to end by C01, not here.",
+    ),
 }
 
 ALL = ["C%02d" % i for i in range(1, 19)]
